@@ -405,7 +405,7 @@ def known_index(prop: str):
 TIERS = {
     # a time budget, but never fewer than min_runs runs (a loaded machine gets more time, up to hard_cap_s): two seeded
     # changes were missed only when a quick batch got a third of its usual runs because other jobs shared the cores
-    "quick": {"budget_s": 50, "max_runs": 100_000, "chunk": 2, "min_runs": 400, "hard_cap_s": 150},
+    "quick": {"budget_s": 50, "max_runs": 100_000, "chunk": 2, "min_runs": 400, "hard_cap_s": 200},
     "thorough": {"budget_s": 900, "max_runs": 5_000_000, "chunk": 8, "min_runs": 4000, "hard_cap_s": 2700},
 }
 
@@ -436,9 +436,16 @@ def _sweep_stale_roots(max_age_s: int = 3600) -> None:
         pass
 
 
+OPT_CHILD = bool(os.environ.get("VERIF_OPT_CHILD"))  # this process is the "python -O" part of a check
+OPT_INDEX_OFFSET = 1_000_000
+
+
 def batch(prop: str, tier: str, base_seed: int, budget_s=None, max_runs=None, workers=None) -> int:
     prof = profile_for(prop)
     tcfg = dict(TIERS[tier])
+    if tier == "quick":
+        # about 0.7 of what 50 s buy on the idle 16-core machine, per property
+        tcfg["min_runs"] = {"C01": 390, "C02": 510, "C03": 450, "C06": 700, "C07": 440, "C11": 820, "C12": 880, "C15": 600, "C16": 440, "C17": 1350, "C19": 300}.get(prop, 400)
     if budget_s is not None:
         tcfg["budget_s"] = budget_s
         tcfg["min_runs"] = 0  # an explicit budget is taken literally
@@ -446,7 +453,8 @@ def batch(prop: str, tier: str, base_seed: int, budget_s=None, max_runs=None, wo
         tcfg["max_runs"] = max_runs
     workers = workers or int(os.environ.get("VERIF_WORKERS", "16"))
     t0 = time.time()
-    print(f"[dsim] property={prop} tier={tier} VERIF_SEED={base_seed} workers={workers} budget={tcfg['budget_s']}s", flush=True)
+    print(f"[dsim] property={prop} tier={tier} VERIF_SEED={base_seed} workers={workers} budget={tcfg['budget_s']}s"
+          + (" (python -O part: assert statements stripped)" if OPT_CHILD else ""), flush=True)
 
     import numbers_parser  # noqa: F401  (import once, before forking)
 
@@ -479,6 +487,8 @@ def batch(prop: str, tier: str, base_seed: int, budget_s=None, max_runs=None, wo
             if not idxs:
                 return False
             next_idx += len(idxs)
+            if OPT_CHILD:
+                idxs = [i + OPT_INDEX_OFFSET for i in idxs]  # other runs than the main part's
             pending.add(pool.submit(_worker_chunk, prop, base_seed, tier, idxs))
             return True
 
@@ -538,6 +548,8 @@ def batch(prop: str, tier: str, base_seed: int, budget_s=None, max_runs=None, wo
             n = known_seen.get(ident, 0)
             if f.get("property") != prop and n == 0:
                 continue  # another property's finding, not met here
+            if OPT_CHILD:
+                continue  # the main part of the check reports the known findings
             ok = replay_known(f.get("property", prop), f)
             if ok:
                 print(f"KNOWN-FINDING: property={f.get('property', prop)} {f['what']} [{f['check_id']} {f['key']}] (witness reproduces; met {n}x in this batch)", flush=True)
@@ -546,6 +558,7 @@ def batch(prop: str, tier: str, base_seed: int, budget_s=None, max_runs=None, wo
 
         # minimise and report new violations
         exit_code = 0
+        unreproducible = 0
         reported = []
         # minimise the first few distinct violations; further ones are listed without minimisation
         extra = list(viols.items())[4:]
@@ -559,12 +572,25 @@ def batch(prop: str, tier: str, base_seed: int, budget_s=None, max_runs=None, wo
             path = write_replay(prop, r["seed"], r["cfg"], small, vv, rr.get("digest"), len(r["ops"]), tests)
             ok, msg = verify_replay(prop, path)
             if not ok:
-                print(f"HARNESS-ERROR property={prop} replay of {path} did not reproduce: {msg}", flush=True)
-                return 2
+                # the minimised history does not fail in a fresh process: fall back to the history as it was generated
+                path0 = write_replay(prop, r["seed"], r["cfg"], r["ops"], v, r.get("digest"), len(r["ops"]), 0)
+                ok0, msg0 = verify_replay(prop, path0)
+                if ok0:
+                    print(f"[dsim] note: the minimised history did not reproduce in a fresh process; reporting the unminimised one", flush=True)
+                    path, small, vv = path0, r["ops"], v
+                else:
+                    print(f"[dsim] UNREPRODUCIBLE property={prop} a violation was observed ({v['check_id']} {v['key']}) but neither the minimised nor the "
+                          f"original history reproduces it in a fresh process (it depends on state the simulator does not control, e.g. memory "
+                          f"addresses): {msg[:300]}", flush=True)
+                    unreproducible += 1
+                    continue
             print(f"VIOLATION property={vv['property'] if vv['property'] == prop else prop} replay={path}", flush=True)
             print(f"  check={vv['check_id']} key={vv['key']} ops={len(small)} (from {len(r['ops'])}, {tests} shrink runs)\n  {vv['detail'][:600]}", flush=True)
             reported.append({"check_id": vv["check_id"], "key": vv["key"], "replay": path})
             exit_code = 1
+        if unreproducible and exit_code == 0:
+            print(f"HARNESS-ERROR property={prop} {unreproducible} violation(s) observed, none reproducible from a replay file", flush=True)
+            return 2
     finally:
         pool.shutdown(wait=False, cancel_futures=True)
 
@@ -672,6 +698,7 @@ def write_replay(prop, seed, cfg, ops, violation, digest, orig_len, shrink_tests
                 "minimised_from_ops": orig_len,
                 "shrink_runs": shrink_tests,
                 "how_to_replay": f"cd /verif && ./check {prop} --replay {path}",
+                "python_optimize": int(sys.flags.optimize),
             },
             fh,
             indent=1,
@@ -691,7 +718,8 @@ def verify_replay(prop: str, path: str):
     """Fresh process: the replay file must fail the same way."""
     env = dict(os.environ)
     env["PYTHONHASHSEED"] = "0"
-    p = subprocess.run([PY, os.path.join(VERIF, "check"), prop, "--replay", path, "--json"], capture_output=True, text=True, env=env, timeout=600)
+    p = subprocess.run([PY, *(["-O"] if sys.flags.optimize else []), os.path.join(VERIF, "check"), prop, "--replay", path, "--json"],
+                       capture_output=True, text=True, env=env, timeout=600)
     try:
         out = json.loads(p.stdout.strip().splitlines()[-1])
     except Exception:  # noqa: BLE001
@@ -760,6 +788,11 @@ def main(argv=None) -> int:
     if args.tier not in TIERS:
         args.tier = "quick"
     if args.replay:
+        with open(args.replay) as fh:
+            need_opt = bool(json.load(fh).get("python_optimize"))
+        if need_opt and not sys.flags.optimize:
+            # found by the "python -O" part of a check: replay under the same interpreter mode
+            os.execv(PY, [PY, "-O", os.path.join(VERIF, "check"), *sys.argv[1:]])
         res, rp = replay_file(prop, args.replay)
         v = res.get("violation")
         exp = rp.get("violation") or {}
@@ -790,4 +823,50 @@ def main(argv=None) -> int:
         r = run_one(prop, seed, args.tier, want_log=True, keep_ops=True, idx=args.one)
         print(json.dumps({k: v for k, v in r.items() if k not in ("cfg",)}, indent=1, default=str)[:20000])
         return 1 if r.get("violation") else (2 if r.get("error") else 0)
-    return batch(prop, args.tier, args.seed, args.budget, args.runs, args.workers)
+    rc = batch(prop, args.tier, args.seed, args.budget, args.runs, args.workers)
+    if rc in (0, 1) and not sys.flags.optimize and not OPT_CHILD and not os.environ.get("VERIF_NO_OPT_PART") and args.runs is None:
+        rc = max(rc, optimized_part(prop, args))
+    return rc
+
+
+def optimized_part(prop: str, args) -> int:
+    """A fifth of the budget is spent again under "python -O": assert statements are compiled out there, an ambient
+    interpreter setting like the time zone or the decimal context - but fixed per process, so it needs a process
+    of its own. Other run indexes than the main part; its violations are reported (and replayed) under -O."""
+    import tempfile
+
+    main_budget = args.budget if args.budget is not None else TIERS[args.tier]["budget_s"]
+    budget = max(8.0, 0.2 * float(main_budget))
+    evdir = os.environ.get("VERIF_EVIDENCE_DIR") or os.path.join(VERIF, "evidence")
+    tmp = tempfile.mkdtemp(prefix="dsim-optpart-", dir="/dev/shm" if os.path.isdir("/dev/shm") else None)
+    env = dict(os.environ)
+    env.update({"VERIF_OPT_CHILD": "1", "VERIF_EVIDENCE_DIR": tmp, "PYTHONHASHSEED": os.environ.get("PYTHONHASHSEED", "0")})
+    cmd = [PY, "-O", os.path.join(VERIF, "check"), prop, "--tier", args.tier, "--seed", str(args.seed), "--budget", str(budget)]
+    if args.workers:
+        cmd += ["--workers", str(args.workers)]
+    try:
+        rc = subprocess.run(cmd, env=env, timeout=max(900.0, 6 * budget)).returncode
+    except subprocess.TimeoutExpired:
+        print(f"HARNESS-ERROR property={prop} the python -O part did not finish", flush=True)
+        rc = 2
+    summary = {"exit_code": rc}
+    try:
+        with open(os.path.join(tmp, f"{prop}.json")) as fh:
+            ev2 = json.load(fh)
+        c2 = ev2["coverage"]
+        summary.update({"evaluations": c2["evaluations"], "distinct_nontrivial": c2["distinct_nontrivial"], "ops_total": c2.get("ops_total"),
+                        "violations_reported": c2.get("violations_reported"), "wall_s": ev2.get("wall_s"), "run_index_offset": OPT_INDEX_OFFSET})
+        main_ev = os.path.join(evdir, f"{prop}.json")
+        with open(main_ev) as fh:
+            ev = json.load(fh)
+        ev["coverage"]["python_optimized_part"] = summary
+        ev["violations"] = int(ev.get("violations", 0)) + int(ev2.get("violations", 0))
+        with open(main_ev, "w") as fh:
+            json.dump(ev, fh, indent=1, default=str)
+    except Exception as e:  # noqa: BLE001
+        print(f"[dsim] note: evidence of the python -O part could not be merged: {type(e).__name__}: {e}", flush=True)
+    finally:
+        import shutil
+
+        shutil.rmtree(tmp, ignore_errors=True)
+    return rc if rc in (0, 1) else 2
